@@ -24,7 +24,7 @@ def pinned_paths(fl):
     pins = set()
     for e in fl.events:
         if e.kind == 'guard':
-            pins |= e.pins
+            pins |= e.eq_pins
     return pins
 
 
